@@ -275,14 +275,17 @@ def observe_mutate(sc, _box=None):
 
     b.steps = cached_steps
     env = DescrEnv(b)
-    for op in sc["ops"]:
+    seen_events = []
+    for opno, op in enumerate(sc["ops"]):
         k = op[0]
+        # every other writer call is given a trace callable: tracing observes, it does not change what is written
+        tkw = dict(trace=seen_events.append) if (opno + len(json.dumps(op))) % 2 else {}
         try:
             if k == "set":
-                r = set_(b.steps(op[1]), val(op[2]), doc, cascade=op[3])
+                r = set_(b.steps(op[1]), val(op[2]), doc, cascade=op[3], **tkw)
                 fin("ok", [], r)
             elif k == "set_match":
-                m = set_match(b.steps(op[1]), val(op[2]), doc, cascade=op[3])
+                m = set_match(b.steps(op[1]), val(op[2]), doc, cascade=op[3], **tkw)
                 fin("match", [m.path_as_str, m.data_name], m.data)
             elif k == "mset":
                 # set_match with a Match as data source: the k-th match of a source path
@@ -294,7 +297,7 @@ def observe_mutate(sc, _box=None):
                     fin("match", [m.path_as_str, m.data_name], m.data)
             elif k == "pop":
                 if op[2][0] == "none":
-                    r = pop(b.steps(op[1]), doc)
+                    r = pop(b.steps(op[1]), doc, **tkw)
                 elif op[2][0] == "fn":
                     r = pop(b.steps(op[1]), doc, default=_default_fn)    # a callable default is a value like any other
                     r = "<fn>" if r is _default_fn else r
@@ -319,13 +322,13 @@ def observe_mutate(sc, _box=None):
                         r = pop(b.steps(op[3]), ms[op[2]], default="dflt")
                     fin("ok", [], r)
             elif k == "pop_match":
-                m = pop_match(b.steps(op[1]), doc, must_match=op[2])
+                m = pop_match(b.steps(op[1]), doc, must_match=op[2], **tkw)
                 if m is None:
                     fin("none", [], None, False)
                 else:
                     fin("match", [m.path_as_str, m.data_name], m.data)
             elif k == "get_sd":
-                r = get(b.steps(op[1]), doc, default=val(op[2]), store_default=True)
+                r = get(b.steps(op[1]), doc, default=val(op[2]), store_default=True, **tkw)
                 fin("ok", [], r)
             elif k == "h.new":
                 ms = list(itertools.islice(find_matches(b.steps(op[2]), doc), op[3] + 1))
@@ -477,7 +480,11 @@ class DescrEnv:
         """final(expression_or_None) -> descriptor for the last declaration"""
         from treepath import Document, attr_typed, attr_iter_typed
         name, p = chain[-1][0], chain[-1][1]
-        cls = type("Leaf", (Document,), {name: final(self.expr(p))})
+        extra = {}
+        if len(json.dumps(chain)) % 2:
+            # a user's Document subclass may define __len__ (an instance over an empty document is then falsy)
+            extra["__len__"] = lambda self: len(self.data) if isinstance(self.data, (dict, list, str)) else 0
+        cls = type("Leaf", (Document,), dict({name: final(self.expr(p))}, **extra))
         for ent in reversed(chain[:-1]):
             name, p = ent[0], ent[1]
             if len(ent) > 2 and ent[2] == "iter":
@@ -487,7 +494,7 @@ class DescrEnv:
                 d = attr_typed(cls, self.expr(p), getter=get_match) if p is not None else attr_typed(cls, getter=get_match)
             else:
                 d = attr_typed(cls, self.expr(p)) if p is not None else attr_typed(cls)
-            cls = type("Outer", (Document,), {name: d})
+            cls = type("Outer", (Document,), dict({name: d}, **extra))
         return cls
 
     def holder(self, cls, doc, chain):
